@@ -277,3 +277,26 @@ def controller_callbacks_are_per_output(ctx):
               + ('' if fresh else ' and register_input never stores a fresh dict on the instance')
               + ': all outputs share one table, so activate_control / self_controlled of one output deactivate the controllers of the '
               'others while their controlled_by still names them', f)
+
+
+@rule('C18.R6b', min_instances=2)
+def generated_wrappers_hold_the_access_lock(ctx):
+    """the generated read_/write_ wrappers run their driver call inside `with self.accessLock:` - the StructParam counter
+    insideRW ("guarded by self.accessLock") and the member/struct consistency rely on reads and writes of one module being
+    serialised"""
+    m = ctx.m
+    hook = m.method(roles.HASACC, '__init_subclass__', inherited=False)
+    ctx.analysed(hook)
+    n = 0
+    for name in ('new_rfunc', 'new_wfunc'):
+        for fi in hook.nested.get(name, []):
+            calls = [c for c in calls_in(fi.node) if isinstance(c.func, ast.Name) and c.func.id in ('rfunc', 'wfunc')]
+            if not calls:
+                continue      # the wrapper of a parameter without read method only returns the cached value
+            n += 1
+            ok = all(in_lock(c, 'accessLock') for c in calls)
+            ctx.check(ok, f'{fi.qualname}:driver call inside accessLock', fi.node, 'with self.accessLock',
+                      f'the driver call of the generated {name} is not inside `with self.accessLock:`: reads and writes of one module interleave, the '
+                      'insideRW counter of struct parameters is no longer protected', fi)
+    if n < 2:
+        raise AnchorMissing('generated wrappers new_rfunc / new_wfunc not found')
